@@ -6,7 +6,7 @@ ROOT = os.path.dirname(os.path.dirname(os.path.abspath(__file__)))
 E1 = "E1-product-explorer"
 E2 = "E2-geometry-explorer"
 E4 = "E4-build-matrix"
-TRUST = "Trusted: rustc/LLVM f64 arithmetic and libm, the constants transcribed from the standards in mc/src/refmodel.rs, the harness itself (safe Rust). "
+TRUST = "Trusted: rustc/LLVM f64 arithmetic and libm, the constants transcribed from the standards in mc/src/refmodel.rs, the harness itself (safe Rust apart from its minimal-alignment global allocator, which hands the subject buffers aligned exactly as requested and not more). "
 
 # id -> (engine, technique, level text, level note, design ref)
 CHECKS = {
@@ -17,13 +17,13 @@ CHECKS = {
   "140 configurations x (full product of an 81/401-step axis alphabet on [-0.5,1.5] with f32 neighbours of the special points) + preimages of c, c+.5-eps, c+.5+eps for EVERY code c of every plane + gamut corners; each pixel goes through the real Yuv::try_from((&Rgb,cfg)) and must be within 0.5+1e-6*2^n of the ideal computed from the actual f32 inputs. The continuous cube is bounded by the stated alphabet; the code axis is complete.",
   TRUST + "The lattice bounds the continuous input cube."),
  "C03": (E1, "complete enumeration of all f32 in [0,1] through every transfer curve, both directions, vs f64 defining formulas",
-  "thorough: all 1,065,353,217 f32 values of [0,1] x 14 characteristics x 2 directions through the real LinearRgb::try_from(Rgb) / Rgb::try_from((LinearRgb,t,p)) - the check is the property. quick: every f32 with low 6 mantissa bits zero (16.6 M, every binade) plus 513-value neighbourhoods of all branch thresholds; each of those values also as a uniform 19-pixel image whose 57 outputs must be bit-identical (position independence at the branch points); component-independence layouts and large images.",
+  "thorough: all 1,065,353,217 f32 values of [0,1] x 14 characteristics x 2 directions through the real LinearRgb::try_from(Rgb) / Rgb::try_from((LinearRgb,t,p)) - the check is the property. quick: every f32 with low 6 mantissa bits zero (16.6 M, every binade) plus 513-value neighbourhoods of all branch thresholds; each of those values also as a uniform 19-pixel image whose 57 outputs must be bit-identical (position independence at the branch points); component-independence layouts (also with out-of-range companions inside the same pixel), greys of every binade through the same curves with BT.2020 and Display-P3 primaries, and large images.",
   TRUST + "xvYCC read as the 2.4 power on [0,1]; PQ scene-referred with BT.2100's rounded constants (DESIGN 2.3)."),
  "C04": (E1, "full product of a near-black-dense axis alphabet on [0,4]^3 and a negative well-conditioned lattice vs f64 opsin/cbrt model",
   "Every pixel of a 240^3 (quick) / 1540^3 (thorough) product alphabet (0, subnormal, 4*2^-k, uniform grid) and of the [-1,4]^3 lattice filtered by the statement's conditioning predicate goes through the real Xyb::from(LinearRgb) and is compared at 2e-6 with the definition quoted in the property.",
   TRUST),
  "C05": (E1, "full product alphabet on [0,1]^3 through the real forward and inverse XYB transforms",
-  "LinearRgb -> Xyb -> LinearRgb on every pixel of the product alphabet (same shape as C04) must return the pixel within 5e-5; the forward transform is the oracle, as the property intends. Plus echo pairs for the inverse alone and three large images (65,539, 262,147, 1281x721 pixels).",
+  "LinearRgb -> Xyb -> LinearRgb on every pixel of the product alphabet (same shape as C04) must return the pixel within 5e-5; the forward transform is the oracle, as the property intends. Plus echo pairs for the inverse alone, each channel swept over 65,537 points with the others at three fixed levels, and three large images (65,539, 262,147, 1281x721 pixels).",
   "No reference constants involved; lattice bounds the continuous cube."),
  "C06": (E1, "full product lattice on [-0.5,2]^3 x 11 primaries x 2 directions vs f64 CIE/Bradford derivation",
   "All 22 directed pairs on the 51^3 (quick) / 501^3 (thorough) lattice plus basis vectors, white and greys, and three large images per pair (65,539, 262,147 and 1281x721 pixels): result vs M_out^-1*Bradford*M_in from the H.273 chromaticities, white preservation, there-and-back, bit-exact identity for equal primaries.",
@@ -41,22 +41,22 @@ CHECKS = {
   "thorough: all f32 of [0,1] x 14 characteristics through the real round trip (the check is the property); quick: the C03 stratum. No reference model.",
   "None beyond the harness."),
  "C11": (E2, "exhaustive enumeration of image sizes x subsamplings x paddings with metamorphic oracles (1x1-image equality, layout independence)",
-  "Sizes 1..=64 (quick: 1..12,31..33,63,64) x 6 subsamplings x u8/u16 x 2 metadata sets: whole-image conversion vs the conversion of every pixel as a 1x1 image (bit-identical), re-run, by-value vs by-reference, same samples under other paddings/strides/poisons (0..=32 per axis at 4x4 and 8x8), borrowed sources compared with a clone; encodes: luma equals 4:4:4 luma, chroma from its own block, plane sizes. Plus call-history independence: all histories [a,b] and [a,b,a] over a 1,560 / ~4,700-operation alphabet (10 conversions x metadata varying every field x image variants), each on a fresh thread, every result compared with the same call made first; the same walk in one single-threaded child process against one fresh process per operation (process-wide state); large-frame histories (every conversion x storage/depth class 8/u8, 8/u16, 10, 12, 16 x both ranges on 65,539-pixel and 2x2 frames); float images overwritten through data_mut() must convert like images constructed with the final content; video-like sizes (1280x54 ...) and shapes just above 4096 pixels; decode also on structured content (every row flat, every column flat, one solid colour); encode also on saturated content (cube corners and out-of-range pixels at every position of a chroma block). A free-running two-thread observer over 2,300 operation pairs is attached (schedules sampled by the OS, not enumerated: it can add findings, it decides nothing).",
+  "Sizes 1..=64 (quick: 1..12,31..33,63,64) x 6 subsamplings x u8/u16 x 2 metadata sets: whole-image conversion vs the conversion of every pixel as a 1x1 image (bit-identical), re-run, by-value vs by-reference, same samples under other paddings/strides/poisons (0..=32 per axis at 4x4 and 8x8), borrowed sources compared with a clone; encodes: luma equals 4:4:4 luma, chroma from its own block, plane sizes. Plus call-history independence: all histories [a,b] and [a,b,a] over a 1,560 / ~4,700-operation alphabet (10 conversions x metadata varying every field x image variants), each on a fresh thread, every result compared with the same call made first; the same walk in one single-threaded child process against one fresh process per operation (process-wide state); large-frame histories (every conversion x storage/depth class 8/u8, 8/u16, 10, 12, 16 x both ranges on 65,539-pixel and 2x2 frames); float images overwritten through data_mut() must convert like images constructed with the final content; video-like sizes (1280x54 ...) and shapes just above 4096 pixels; decode also on structured content (every row flat, every column flat, one solid colour); encode also on saturated content (cube corners and out-of-range pixels at every position of a chroma block). Also: rejected calls (unsupported metadata) inside the histories; luma-plane decimation labels as one more layout; shapes just above 4096 / 16384 / 65536 pixels with an odd row count per band, every width 65..2050 on two rows, one 2561x1441 frame; every float pixel count 1..8192 as a row and as a column; provenance independence (the result of a conversion converts on like an image constructed from its data). A free-running two-thread observer over 2,300 operation pairs is attached (schedules sampled by the OS, not enumerated: it can add findings, it decides nothing).",
   "Position-coded content distinguishes neighbours/rows/columns and is not periodic in the 2^n / 256 / 1024 column or row distances; no expected values are used. Thread interleavings inside a conversion are not enumerated (DESIGN 5)."),
  "C12": (E2, "exhaustive small-box product + deviation-bounded enumeration of frame geometries vs a reference acceptance predicate",
-  "Full product of the small geometry box, every well-formed base with every single and pair of deviations, one out-of-range sample at EVERY raw buffer position (visible and padding) for depths 8..15, all (len,w,h) in 0..=40 cubed for the four float constructors, all 19x14 label pairs for Rgb::new and all 15x19x14 metadata triples for Yuv::new (specified metadata is exposed as given; every float buffer also with a capacity that differs from its length): accept <=> predicate, the error variant must name a violated condition, accepted images are verbatim.",
+  "Full product of the small geometry box, every well-formed base with every single and pair of deviations, one out-of-range sample at EVERY raw buffer position (visible and padding) for depths 8..15, all (len,w,h) in 0..=40 cubed for the four float constructors, all 19x14 label pairs for Rgb::new and all 15x19x14 metadata triples for Yuv::new (specified metadata is exposed as given; every float buffer also with a capacity that differs from its length; clone() and clone_from() of all five image types into destinations of other shape, labels and config; out-of-range samples with every single high bit): accept <=> predicate, the error variant must name a violated condition, accepted images are verbatim.",
   "Predicate transcribed from the statement (mc/src/geom.rs); a wrong-size chroma plane may be reported as any of the three geometry errors (DESIGN 2.3)."),
  "C13": ("E1+E3 (staged, child processes)", "exhaustive special-value cubes and stratified bit-pattern sweeps through every conversion and supported config, release and checked builds, child processes",
-  "48^3 special-float cubes through all 14x11 curve/primaries pairs both ways, all 140 encode configs, XYB, HSL and the composite paths over curves x primaries x matrices x ranges x depths; every f32 pattern with low 12 (quick) / 8 (thorough) bits all-0/all-1 on each component; unit-cube lattice for finiteness; every conversion on 0x0, 0x3, 2x0, 1x1, 1x7, 7x1 images; 65,537-pixel images uniformly NaN / +-inf / -1 / 2 / 0 / 1e30 / subnormal; 65,600 identical calls of every kind of conversion (specified and Unspecified metadata) on one thread; stateright call sequences to depth 4/5. No panic/abort, every produced code <= 2^n-1 and re-wrappable.",
+  "48^3 special-float cubes through all 14x11 curve/primaries pairs both ways, all 140 encode configs, XYB, HSL and the composite paths over curves x primaries x matrices x ranges x depths; every f32 pattern with low 12 (quick) / 8 (thorough) bits all-0/all-1 on each component; unit-cube lattice for finiteness; every conversion on 0x0, 0x3, 2x0, 1x1, 1x7, 7x1 images; 12 and 16 bit with every curve; 65,537-pixel images uniformly NaN / +-inf / -1 / 2 / 0 / 1e30 / subnormal; 65,600 identical calls of every kind of conversion (specified and Unspecified metadata) on one thread; stateright call sequences to depth 4/5. No panic/abort, every produced code <= 2^n-1 and re-wrappable.",
   "4:4:4 dimensions (other sizes: C07/C11/C12); a 0xN YUV frame is outside every property (v_frame cannot iterate it)."),
  "C14": (E1, "complete enumeration of all 3276 fully specified metadata triples x 10 conversions with a metamorphic offending-field oracle",
   "Every (matrix, primaries, transfer) triple without Unspecified x {u8/8,u16/10} x {limited,full} x 5 forward/reverse conversion pairs: never panics, errors are Unsupported* and name an offending field (replacing only that field removes the error), support is symmetric, single-stage pairs agree on the error, supported sets succeed, YUV<->RGB is bit-identical across all 234 label pairs. The check equals the property.",
   "'names an offending field' decided metamorphically; gamma<->linear error equality compared when the primaries are supported."),
  "C15": (E1, "exhaustive enumeration of threshold sizes x all matrices x every subset of Unspecified fields vs a reference transcription of the mpv rule, plus relational content check",
-  "168 sizes x 240 configs for resolution purity and equality with the documented rule; all 19x14 label pairs for Rgb; for every conversion given Unspecified fields that succeeds (all matrices x a 3-value alphabet of the other fields x 3 depth classes, and four matrices x EVERY supported primaries and transfer next to Unspecified neighbours), the stored config must be the documented resolution and decoding the output with its own config must reproduce the input within the C09 budget (in codes after re-encoding; for gamma-RGB inputs also literally in the RGB domain).",
+  "168 sizes x 240 configs for resolution purity and equality with the documented rule; all 19x14 label pairs for Rgb; for every conversion given Unspecified fields that succeeds (resolution also on 4:2:0 / 4:2:2 / 4:4:0 / 4:1:1 frames of the same luma size; content check over all matrices x a 3-value alphabet of the other fields x 3 depth classes, and four matrices x EVERY supported primaries and transfer next to Unspecified neighbours), the stored config must be the documented resolution and decoding the output with its own config must reproduce the input within the C09 budget (in codes after re-encoding; for gamma-RGB inputs also literally in the RGB domain).",
   "Sizes bounded to the listed threshold neighbourhoods."),
  "C16": (E1, "complete enumeration of every grey code at every depth and 2^20 linear grey levels through every stage",
-  "All 130,816 luma codes x 140 configs (spread, exact black, white), 2^20+ grey levels through 14 curves x 2 directions, 22 primaries directions, XYB and HSL.",
+  "All 130,816 luma codes x 140 configs (spread, exact black, white), 2^20+ grey levels through 14 curves x 2 directions, 22 primaries directions, XYB and HSL; the non-standard luma/chroma matrices wherever the library accepts them.",
   "The 2^20 grid + 2^-k stratum stands for the continuous linear grey axis; the code axis is complete."),
  "C17": (E1, "full product lattice of [0,1]^3 plus near-grey / near-boundary shells vs the f64 hexcone model",
   "400^3 (quick) / 2048^3 (thorough) RGB lattice plus shells at 1 ulp..1e-5 from every sextant boundary: range, hexcone agreement (L 1e-6, S 1e-4, H 0.01 deg), RGB->HSL->RGB within 1e-5; 1453 hues x 67^2 (S,L) for L=0 black / L=1 white.",
@@ -65,9 +65,9 @@ CHECKS = {
   "cbrtf and expf on every f32 bit pattern (accuracy, oddness, tails, totality with the hook armed); powf on every positive normal x (thorough; 8.3 M in quick) for each of the 12 exponents the library uses, base 10 over the log-curve stratum, a 254 x 1024 x 1601 (x,y) product, and the lattice of 6 exponents x 2^10/2^12 mantissas x every t = y*log2(x) = k + j/256 (j/1024) with |y| <= 80, and y = +-2^-k, +-1.5*2^-k, +-80*2^-k for k = 0..40 against every binade (powf is exp2(y*log2 x): its error is a function of the mantissa and of the integer and fractional part of t); special x special for totality.",
   TRUST + "powf over (x,y) is bounded by the stated grids."),
  "C19": (E1, "exhaustive small-alphabet enumeration of 3x3 matrices, vectors and pairs vs f64 definitions, f32 and f64 instantiations",
-  "All 7^9 (thorough; 5^9 quick) matrices over a dyadic alphabet and all 5^9 over a non-dyadic one x all vectors (mul_vec, mul_arr, transpose, identity, scalar_div, invert when |det|>=0.5), all vector pairs (cross, dot, component_mul, scalar_div), scalar_div by +-2^e and +-1.5*2^e for every exponent of f32 and f64 (subnormals included), mul_mat over {-1,0,1}^9 pairs, the library's own colour matrices.",
+  "All 7^9 (thorough; 5^9 quick) matrices over a dyadic alphabet and all 5^9 over a non-dyadic one x all vectors (mul_vec, mul_arr, transpose, identity, scalar_div, invert when |det|>=0.5), all vector pairs (cross, dot, component_mul, scalar_div), scalar_div by +-2^e and +-1.5*2^e for every exponent of f32 and f64 (subnormals included), products with an almost-identity factor (eps 1e-6..1e-5), mul_mat over {-1,0,1}^9 pairs, the library's own colour matrices.",
   "Entries in [-2,2] bounded by the stated alphabets."),
- "C20": (E4, "enumeration of all 8 build configurations, each re-running the C01-C06/C08/C10/C18/C19 explorations, plus pairwise cross-build comparison on identical inputs",
+ "C20": (E4, "enumeration of all 8 build configurations, each re-running the C01-C06/C08/C09(light)/C10/C18/C19 explorations, plus pairwise cross-build comparison on identical inputs",
   "{fastmath on, off} x {FMA off, on} x {release, checked}: every configuration is built from the working tree and runs the explorations with their own budgets; the fastmath-off builds (requested exactly as a user would) must be libm-exact (curves 5e-5, helpers 2 ulp); 10 build pairs are compared output by output (bit-identical where the configuration difference cannot matter, within budget otherwise).",
   "quick uses reduced ('matrix tier') alphabets per build, thorough the full quick alphabets. PQ may match either self-consistent reading of the BT.2100 constants in the exact build (DESIGN 2.3)."),
 }
